@@ -1,3 +1,28 @@
 import NimaVerif.Props.C05
 open Nima.C05
-#print axioms placeholder_rm_missing_key
+#print axioms set_plain_refines
+#print axioms set_nested_explicit_refines
+#print axioms rm_plain_refines
+#print axioms rm_nested_explicit_refines
+#print axioms set_attrpath_root_refused
+#print axioms set_attrpath_leaf_refines
+#print axioms set_attrpath_new_refines
+#print axioms rm_attrpath_refines
+#print axioms set_fresh_goes_last
+#print axioms set_attrpath_entry_appended
+#print axioms specSet_nodup
+#print axioms specRemove_nodup
+#print axioms keys_preserved
+#print axioms rendered_eq_denote_values
+#print axioms docNestedFamily_wf
+#print axioms cex_nested_family
+#print axioms cex_rendered_follows
+#print axioms docInherit_wf
+#print axioms cex_inherit_duplicate
+#print axioms cex_set_plain_full
+#print axioms refusal_set
+#print axioms refusal_rm
+#print axioms refusal_scope_set
+#print axioms refusal_scope_rm
+#print axioms docEx_wf
+#print axioms docEx_coh
